@@ -61,3 +61,32 @@ def require_fn(db, res, path):
     if f is None:
         res.missing_anchor(path)
     return f
+
+
+def byte_to_char(callee=None, cast=None):
+    """does a call / cast build a char from a single byte or code unit?"""
+    import re
+
+    if callee is not None:
+        return bool(re.search(r"(<char as (std|core)::convert::From<u8>>::from$|impl (std|core)::convert::From<u8> for char>::from$)", callee)) or callee.endswith("char::from_u32_unchecked") or callee.endswith("char::from_u32")
+    src_t, dst_t = cast
+    return dst_t == "char" and src_t in ("u8", "u16", "u32", "i8")
+
+
+# positive control of the predicate (the rule built on it expects zero matches in the analysed code)
+assert byte_to_char(callee="std::char::convert::<impl std::convert::From<u8> for char>::from") and byte_to_char(callee="<char as std::convert::From<u8>>::from") and byte_to_char(cast=("u8", "char")) and not byte_to_char(cast=("char", "u32"))
+
+
+def byte_to_char_sites(db, fns):
+    from qv.engine import callee_path
+
+    hits = []
+    for f in fns:
+        for bb, t, c in f.calls():
+            if c and byte_to_char(callee=callee_path(c)):
+                hits.append((f, t.get("sp"), callee_path(c)))
+        for i, j, st in f.stmts():
+            if st["k"] == "assign" and st["rv"]["k"] == "cast" and "ft" in st["rv"]:
+                if byte_to_char(cast=(db.types[st["rv"]["ft"]]["s"], db.types[st["rv"]["t"]]["s"])) and not st.get("exp"):
+                    hits.append((f, st.get("sp"), "`as char`"))
+    return hits
